@@ -111,9 +111,9 @@ Proof.
     + eapply IH; eassumption.
 Qed.
 
-Lemma req_nak_ok n : forall p rwt deadline w r w', Wok w -> req_nak n ic tc p rwt deadline w = (r, w') -> Wok w'.
+Lemma req_nak_ok n : forall p ch rwt deadline w r w', Wok w -> req_nak n ic tc p ch rwt deadline w = (r, w') -> Wok w'.
 Proof.
-  induction n as [|n IH]; intros p rwt deadline w r w' HW H; cbn [req_nak] in H.
+  induction n as [|n IH]; intros p ch rwt deadline w r w' HW H; cbn [req_nak] in H.
   - injection H as <- <-; exact HW.
   - destruct (Z.min rwt (deadline - w_now w) <=? 0); [injection H as <- <-; exact HW|].
     destruct (srr1 ic tc (PDepReq (i_dep ic F_NAK p [])) (Z.min rwt (deadline - w_now w)) w) as [x w1] eqn:Es.
@@ -121,7 +121,7 @@ Proof.
     destruct x as [x|e|c|]; try (injection H as <- <-; exact HW1).
     + destruct x; try (injection H as <- <-; exact HW1).
       destruct (fmt d =? F_RTOX); [injection H as <- <-; exact HW1|].
-      destruct (negb ((fmt d =? F_INF) || (fmt d =? F_MORE))); injection H as <- <-; exact HW1.
+      destruct (negb ((fmt d =? F_INF) || (fmt d =? F_MORE) || (ch && (fmt d =? F_ACK)))); injection H as <- <-; exact HW1.
     + eapply IH; eassumption.
 Qed.
 
